@@ -1,9 +1,11 @@
 package main
 
 import (
+	"fmt"
 	"go/ast"
 	"go/token"
 	"go/types"
+	"os"
 	"sort"
 	"strings"
 
@@ -17,7 +19,8 @@ func init() {
 			"graph of package git — MUTATES (reaches ReferenceStorer.SetReference/CheckAndSetReference/RemoveReference, IndexStorer.SetIndex or a mutating method of the worktree filesystem; Remote methods are excluded because " +
 			"fetching only touches objects and remote-tracking refs) and REFUSES (returns one of the frozen refusal sentinels, or calls an options Validate method, the target resolvers, or another REFUSES function) — " +
 			"and in each entry point's CFG no REFUSES call or refusal return is reachable after a MUTATES call. A call to Reset after a mutation is accepted only when the caller ran resetRefusals on the same options and set " +
-			"refusalsChecked on every path, and Reset consults its refusals only behind that flag. Not decided: failures injected at filesystem calls after the first mutation (not refusals); that the refusal predicates are complete (C30).",
+			"refusalsChecked on every path, and Reset consults its refusals only behind that flag. A mutating call is compensated, and not counted, when it changes the index only (its closure inside package git reaches no reference mutator and " +
+			"no worktree write) and a deferred function registered on every path before it puts a saved copy of the index (a package function applied to what Storer.Index() returned) back whenever the named error result is non-nil. Not decided: failures injected at filesystem calls after the first mutation (not refusals); that the refusal predicates are complete (C30).",
 		Assumptions: []string{"the refusal table lists the errors that mean 'the operation declines to run' as opposed to I/O failures"},
 		Run:         runC29,
 	})
@@ -288,6 +291,22 @@ func runC29(c *Ctx) {
 			}) != nil
 		}
 		muts := f.Locs(isMut)
+		// a mutation of the index alone is compensated when a deferred function, registered on every path before it,
+		// puts a saved copy of the index back whenever the (named) error result is non-nil
+		nComp := 0
+		if comp := indexRestoreDefer(p, info, fi, f); comp != nil {
+			var rest []Loc
+			for _, m := range muts {
+				call := nodeHasCall(m.B.Nodes[m.Idx], false, func(call *ast.CallExpr) bool { _, ok := eff.mut[Callee(info, call)]; return ok })
+				dominated := f.Search(SearchOpts{Starts: []Loc{f.Entry()}, Sink: func(n ast.Node) bool { return n == m.B.Nodes[m.Idx] }, Barrier: func(n ast.Node) bool { return n == ast.Node(comp) }}) == nil
+				if call != nil && dominated && onlyMutatesIndex(p, info, Callee(info, call)) {
+					nComp++
+					continue
+				}
+				rest = append(rest, m)
+			}
+			muts = rest
+		}
 		var worst *Hit
 		var first Loc
 		for _, m := range muts {
@@ -306,7 +325,7 @@ func runC29(c *Ctx) {
 			}
 			c.Violate(r1, fi.Name(), worst.Node.Pos(), "after "+Callee(info, mcall).Name()+" ("+eff.mut[Callee(info, mcall)]+") at "+p.Pos(mcall.Pos())+" the operation can still refuse: "+rdesc+"; a refused call would leave that change behind")
 		} else {
-			c.Hold(r1, fi.Name(), fi.Decl.Pos(), itoa(len(muts))+" mutating call(s); no refusal reachable after the first")
+			c.Hold(r1, fi.Name(), fi.Decl.Pos(), itoa(len(muts))+" mutating call(s); no refusal reachable after the first"+ifStr(nComp > 0, "; "+itoa(nComp)+" index-only mutation(s) compensated by a deferred restore of the saved index on every error return"))
 		}
 	}
 	c.Floor(r1, 7)
@@ -706,4 +725,144 @@ func runC30(c *Ctx) {
 		}
 	}
 	c.Floor(r5, 2)
+}
+
+// indexRestoreDefer finds, in fi, a `defer func() { if <named error result> != nil { …SetIndex(saved) } }()` whose saved
+// value is the result of a package function applied to what Storer.Index() returned (a copy taken before the change).
+func indexRestoreDefer(p *Prog, info *types.Info, fi *FuncInfo, f *Flow) *ast.DeferStmt {
+	sig := fi.Obj.Type().(*types.Signature)
+	if sig.Results().Len() == 0 {
+		return nil
+	}
+	res := sig.Results().At(sig.Results().Len() - 1)
+	if res.Name() == "" || res.Name() == "_" {
+		return nil
+	}
+	var found *ast.DeferStmt
+	for _, l := range f.Locs(func(n ast.Node) bool { _, ok := n.(*ast.DeferStmt); return ok }) {
+		ds := l.B.Nodes[l.Idx].(*ast.DeferStmt)
+		lit, ok := unparen(ds.Call.Fun).(*ast.FuncLit)
+		if !ok {
+			continue
+		}
+		ast.Inspect(lit.Body, func(n ast.Node) bool {
+			ifs, ok := n.(*ast.IfStmt)
+			if !ok {
+				return true
+			}
+			be, ok := unparen(ifs.Cond).(*ast.BinaryExpr)
+			if !ok || be.Op != token.NEQ || !isNil(info, be.Y) || objOf(info, be.X) != types.Object(res) {
+				return true
+			}
+			ast.Inspect(ifs.Body, func(m ast.Node) bool {
+				call, ok := m.(*ast.CallExpr)
+				if !ok || len(call.Args) != 1 {
+					return true
+				}
+				sel, ok := unparen(call.Fun).(*ast.SelectorExpr)
+				if !ok || sel.Sel.Name != "SetIndex" {
+					return true
+				}
+				saved := objOf(info, call.Args[0])
+				if saved == nil {
+					return true
+				}
+				// saved := <package function>(x) with x := ….Index()
+				ast.Inspect(fi.Decl.Body, func(x ast.Node) bool {
+					as, ok := x.(*ast.AssignStmt)
+					if !ok || len(as.Rhs) != 1 || objOf(info, as.Lhs[0]) != saved {
+						return true
+					}
+					cp, ok := unparen(as.Rhs[0]).(*ast.CallExpr)
+					if !ok || len(cp.Args) != 1 || p.FuncOf(Callee(info, cp)) == nil {
+						return true
+					}
+					src := objOf(info, cp.Args[0])
+					ast.Inspect(fi.Decl.Body, func(y ast.Node) bool {
+						as2, ok := y.(*ast.AssignStmt)
+						if !ok || len(as2.Rhs) != 1 || src == nil || objOf(info, as2.Lhs[0]) != src {
+							return true
+						}
+						if ic, ok := unparen(as2.Rhs[0]).(*ast.CallExpr); ok {
+							if fn := Callee(info, ic); fn != nil && fn.Name() == "Index" {
+								found = ds
+							}
+						}
+						return true
+					})
+					return true
+				})
+				return true
+			})
+			return true
+		})
+	}
+	return found
+}
+
+// onlyMutatesIndex: in the static closure of fn inside package git the only storer mutation is SetIndex and the
+// worktree is not written.
+func onlyMutatesIndex(p *Prog, info *types.Info, fn *types.Func) bool {
+	start := p.FuncOf(fn)
+	if start == nil {
+		return false
+	}
+	wtn := p.lookupType("git", "worktreeFilesystem")
+	ok := true
+	// closure inside package git, not entering functions that act on another repository (a submodule's or a remote's,
+	// or one that is being created): the same boundary computePorcelainEffects uses
+	otherRepo := func(fi *FuncInfo) bool {
+		tn := recvTypeName(fi.Obj)
+		if tn != nil && (tn.Name() == "Remote" || tn.Name() == "Submodule" || tn.Name() == "Submodules") {
+			return true
+		}
+		switch fi.Obj.Name() {
+		case "Init", "Open", "PlainInit", "PlainOpen", "Clone", "PlainClone", "initStorer":
+			return tn == nil
+		}
+		return false
+	}
+	cg := p.callGraph()
+	seen := map[*types.Func]bool{start.Obj: true}
+	closure := []*FuncInfo{start}
+	for i := 0; i < len(closure); i++ {
+		for _, e := range cg.edges[closure[i].Obj] {
+			cf := p.FuncOf(e.Callee)
+			if cf == nil || cf.Decl.Body == nil || seen[e.Callee] || cf.Pkg.PkgPath != modPath || otherRepo(cf) {
+				continue
+			}
+			seen[e.Callee] = true
+			closure = append(closure, cf)
+		}
+	}
+	for _, fi := range closure {
+		finfo := fi.Pkg.TypesInfo
+		walkCalls(fi.Decl.Body, true, func(call *ast.CallExpr) {
+			c := Callee(finfo, call)
+			if c == nil {
+				return
+			}
+			if c.Pkg() != nil && strings.HasSuffix(c.Pkg().Path(), "/plumbing/storer") {
+				switch c.Name() {
+				case "SetReference", "CheckAndSetReference", "RemoveReference":
+					ok = false
+					if os.Getenv("GV_DEBUG") != "" {
+						fmt.Println("onlyMutatesIndex: ", fi.Name(), c.Name(), p.Pos(call.Pos()))
+					}
+				}
+			}
+			if sel, isSel := unparen(call.Fun).(*ast.SelectorExpr); isSel && wtn != nil {
+				switch sel.Sel.Name {
+				case "Create", "OpenFile", "Remove", "Rename", "Symlink", "MkdirAll":
+					if tv, has := finfo.Types[sel.X]; has && types.Identical(tv.Type, types.NewPointer(wtn.Type())) && recvTypeName(fi.Obj) != wtn {
+						ok = false
+						if os.Getenv("GV_DEBUG") != "" {
+							fmt.Println("onlyMutatesIndex: ", fi.Name(), sel.Sel.Name, p.Pos(call.Pos()))
+						}
+					}
+				}
+			}
+		})
+	}
+	return ok
 }
